@@ -46,6 +46,14 @@ def p_c09(facts, rep, tier):
     )
     n_fn, n_eff, n_guard = guardfx.run(facts, rep, "C09")
     guardfx.session_params_const_false(facts, rep)
+    import syncorder
+
+    ctx = sync_ctx(facts)
+    n3 = 0
+    before = len(rep.violations)
+    n3 = syncorder.o3(ctx, rep)
+    syncorder.pending_truncate_consumers(ctx, rep)
+    rep.floor("C09 O3 post-meta events", n3, 8)
     rep.floor("C09 guardfx functions", n_fn, 2)
     rep.floor("C09 guardfx guards", n_guard, 4)
     rep.assume("path feasibility is ignored", "effect table as in rules/guardfx.py")
@@ -70,6 +78,10 @@ def p_c14(facts, rep, tier):
     n3, nj = errflow.r3_tasks_joined(facts, rep, st)
     n4 = errflow.r4_error_exits_poison(facts, rep)
     n_fn, n_eff, n_guard = guardfx.run(facts, rep, "C14")
+    import syncorder
+
+    n5 = syncorder.r5(sync_ctx(facts), rep)
+    rep.floor("R5 wait/join sites decided", n5, 8)
     rep.floor("R1 fallible call sites", n1, 450)
     rep.floor("R2 CompleteIo values", n2, 12)
     rep.floor("R3 spawn sites", n3, 10)
@@ -85,11 +97,114 @@ def p_c14(facts, rep, tier):
     rep.trust("rustc MIR (nightly, mir-opt-level=0)", "rules/errflow.py idiom tables", "rules/strands.py channel identity")
 
 
+_CTX = {}
+
+
+def sync_ctx(facts):
+    import syncorder
+
+    if id(facts) not in _CTX:
+        _CTX[id(facts)] = syncorder.Ctx(facts)
+    return _CTX[id(facts)]
+
+
+def _sync_common(rep, ctx):
+    rep.extra["file_events"] = len(ctx.events)
+    rep.extra["strands"] = {"spawn_sites": len(ctx.st.spawns), "join_sites": len(ctx.st.joins)}
+    rep.floor("file events classified", len(ctx.events), 55)
+    rep.floor("spawn sites", len(ctx.st.spawns), 10)
+    if ctx.unclassified:
+        for (fn, prim, ln) in ctx.unclassified:
+            rep.violation("fileclass", fn.split("::", 1)[1], "unclassified|%s" % prim, "a file primitive (%s) at %s acts on a descriptor whose file class cannot be derived (fail closed)" % (prim, ln), site=ln)
+    rep.assume(
+        "a single-page pwrite of the meta page is atomic; sync_all/sync_data make preceding completed writes of that descriptor durable",
+        "A-count: where a producer loop is paired with a consumer loop (worker spawns/joins, page-write submissions/drain loops) the trip counts are assumed equal: "
+        + "; ".join(ctx.model.assumed_counts),
+        "closures passed to non-spawn functions are invoked before the callee returns",
+        "path feasibility is ignored except for Ok/Err pruning and constant-only boolean flags (one-bit path sensitivity)",
+        "file-class identity of descriptors follows the static provenance (rules/fileclass.py)",
+    )
+    rep.trust("rustc MIR (nightly, mir-opt-level=0)", "rules/fileclass.py FILE_FIELDS table", "rules/syncmodel.py happens-before model", "unsafe/FFI primitives do what their names say")
+
+
+def p_c03(facts, rep, tier):
+    import syncorder
+
+    rep.explanation = (
+        "C03 (ordering skeleton): over the MIR call/spawn structure of Sync::sync, every write/resize of wal, ln and bbn that can start "
+        "before Meta::write is complete (synchronous, or its task joined / its page writes drained with results checked) when Meta::write "
+        "starts (O1); hash-table writes, WAL truncation, rollback-log unlink/truncation and the index swap can start only after Meta::write "
+        "returned Ok (O3); Meta::write is one page write at offset 0 followed by a checked fsync, called only from Sync::sync and create (O4); "
+        "WAL redo in recover is confined to the branch where the WAL's sequence number equals the meta page's, which derives from Meta::read (O7); "
+        "the WAL is tagged with the very value stored in the meta page and the in-memory counter advances only after the swap (O8). "
+        "Decides the before/after-the-barrier structure for all histories and crash points; data-level recovery correctness is not decided."
+    )
+    ctx = sync_ctx(facts)
+    n1 = syncorder.o1_o2(ctx, rep, "O1")
+    n3 = syncorder.o3(ctx, rep)
+    syncorder.o4(ctx, rep)
+    n7 = syncorder.o7(ctx, rep)
+    syncorder.o8(ctx, rep)
+    rep.floor("O1 pre-meta write/resize events", n1, 8)
+    rep.floor("O3 post-meta events", n3, 8)
+    _sync_common(rep, ctx)
+
+
+def p_c04(facts, rep, tier):
+    import syncorder
+
+    rep.explanation = (
+        "C04 (fsync obligations): for wal, ln and bbn every write/resize that can precede Meta::write is complete before a result-checked fsync of "
+        "that file starts, and that fsync lies on every success path to Meta::write (O2); Meta::write syncs the meta page (O4); hash-table page "
+        "writes are drained and the file fsynced before the WAL is truncated, in post_meta (O5) and in recovery (O6); a rollback record is "
+        "written and fsynced, and a newly created segment followed by a directory fsync, before commit returns Ok (O9); pruning orders unlink -> "
+        "dir fsync -> head truncation -> fsync (O10); store creation syncs every file and the directory (O11). Removing any of these fsyncs makes "
+        "an obligation underivable. Device semantics and drain-count arithmetic are assumed."
+    )
+    ctx = sync_ctx(facts)
+    n2 = syncorder.o1_o2(ctx, rep, "O2")
+    syncorder.o4(ctx, rep)
+    n56 = syncorder.o5_o6(ctx, rep)
+    n9 = syncorder.o9(ctx, rep)
+    n10 = syncorder.o10(ctx, rep)
+    n11 = syncorder.o11(ctx, rep)
+    rep.floor("O2 pre-meta writes", n2, 8)
+    rep.floor("O5/O6 ht writes before truncate_wal", n56, 3)
+    rep.floor("O9 rollback append obligations", n9, 6)
+    rep.floor("O11 create obligations", n11, 8)
+    _sync_common(rep, ctx)
+
+
+def p_c17(facts, rep, tier):
+    import syncorder
+
+    rep.explanation = (
+        "C17 (write discipline): every mutating file primitive (write, resize, unlink, create, open with create/truncate) sits in a function "
+        "allowed for its file class (W1); inside the ln/bbn page writers a page number can only originate from SyncAllocator::allocate - no "
+        "page-number reads from parameters/captures, constructions, casts or other repo calls returning page numbers (W2); free-list mutators are "
+        "callable only from SyncFinisher::finish and allocate uses the clean free list only (W3); rollback segments are opened append-only (W4); "
+        "hash-table writes, WAL truncation and log pruning start only post-meta (O3). That the allocator's numbers are free in the previous image "
+        "(free-list arithmetic) is not decided."
+    )
+    ctx = sync_ctx(facts)
+    n1 = syncorder.w1(ctx, rep)
+    n2 = syncorder.w2(ctx, rep)
+    n3 = syncorder.w3(ctx, rep)
+    n4 = syncorder.w4(ctx, rep)
+    n5 = syncorder.o3(ctx, rep)
+    rep.floor("W1 mutating primitive sites", n1, 35)
+    rep.floor("O3 post-meta events", n5, 8)
+    _sync_common(rep, ctx)
+
+
 PROPS = {
+    "C03": p_c03,
+    "C04": p_c04,
     "C09": p_c09,
     "C11": p_c11,
     "C12": p_c12,
     "C14": p_c14,
+    "C17": p_c17,
 }
 
 
